@@ -63,6 +63,8 @@ structure State where
   auth : Bool := false      -- ghost
   armed : Bool := false     -- an unlock timer is pending
   memPw : Bool := false     -- wallet.Password is cached in memory (decides which check Unlock/SetPasswd use)
+  ticket : Bool := false    -- a registered mineStatusReporter (consensus plugin) reports "ticket unlocked";
+                            -- false also when no reporter is registered (the case in this repository)
   sp : Option Call := none  -- the ProcWalletSetPasswd call that holds wallet.mtx, if any
   deriving DecidableEq, Repr
 
@@ -83,6 +85,9 @@ inductive Label where
   | read
   | guarded
   | sign (addr : AddrKind) (priv : PrivKind)   -- ProcSignRawTx with both key-selecting fields
+  | guardedTicket           -- the two paths that accept "wallet locked, ticket unlocked": GetAllPrivKeys (plugin
+                            -- interface, sendtx.go) and ProcSendToAddress to the consensus contract (isTransfer)
+  | reporter (ticketUnlocked : Bool)  -- the plugin changes what its mineStatusReporter reports (environment step)
   | spBegin (oldOk newValid writeOk : Bool)
   | spStep
   | restart
@@ -100,12 +105,15 @@ inductive Out where
 
 /-- ProcSignRawTx, key selection as written: `Addr` wins over `Privkey`; only the `Addr` branch needs the wallet
 (checkWalletStatus, then the stored key of `Addr`); the `Privkey` branch signs with the caller's key in any state. -/
-def signOut (locked : Bool) : AddrKind → PrivKind → Out
-  | .wallet, _ => if locked then .err "ErrWalletIsLocked" else .secret
-  | .foreign, _ => if locked then .err "ErrWalletIsLocked" else .err "ErrAddrNotExist"
+def signOut (locked : Bool) (lockedErr : String) : AddrKind → PrivKind → Out
+  | .wallet, _ => if locked then .err lockedErr else .secret
+  | .foreign, _ => if locked then .err lockedErr else .err "ErrAddrNotExist"
   | .none, .valid => .supplied
   | .none, .garbage => .err "ErrPrivkey"
   | .none, .none => .err "ErrNoPrivKeyOrAddr"
+
+/-- checkWalletStatus on a locked wallet: ErrOnlyTicketUnLocked if the reporter says the ticket is unlocked. -/
+def lockedErr (s : State) : String := if s.ticket then "ErrOnlyTicketUnLocked" else "ErrWalletIsLocked"
 
 def firstOp (v : Variant) : Mop := if v.verifyFirst then .verify else .load
 
@@ -151,11 +159,18 @@ def step (v : Variant) (s : State) : Label → Option (State × Out)
   | .guarded =>
     match s.sp with
     | some _ => none
-    | none => if s.locked then some (s, .err "ErrWalletIsLocked") else some (s, .secret)
+    | none => if s.locked then some (s, .err (lockedErr s)) else some (s, .secret)
   | .sign a p =>
     match s.sp with
     | some _ => none
-    | none => some (s, signOut s.locked a p)
+    | none => some (s, signOut s.locked (lockedErr s) a p)
+  | .guardedTicket =>
+    match s.sp with
+    | some _ => none
+    | none =>
+      if s.locked then (if s.ticket then some (s, .secret) else some (s, .err "ErrWalletIsLocked"))
+      else some (s, .secret)
+  | .reporter b => some ({ s with ticket := b }, .ok)
   | .spBegin oldOk newValid writeOk =>
     match s.sp with
     | some _ => none
@@ -170,7 +185,7 @@ def step (v : Variant) (s : State) : Label → Option (State × Out)
   | .restart =>
     match s.sp with
     | some _ => none
-    | none => some ({ locked := true, auth := false, armed := false, memPw := false, sp := none }, .ok)
+    | none => some ({ locked := true, auth := false, armed := false, memPw := false, ticket := false, sp := none }, .ok)
 
 /-- run a trace; `none` as soon as a label is not enabled. -/
 def run (v : Variant) (s : State) : List Label → Option (State × List Out)
